@@ -427,7 +427,7 @@ func c02LengthFact(r *Run, fn *ssa.Function) {
 		return
 	}
 	diff := linLeaf("len(p1)").add(linLeaf("len(p0)"), -1) // len(v) − len(in)
-	eqTo := func(c int64) []ineq {                            // len(v) − len(in) = c
+	eqTo := func(c int64) []ineq {                         // len(v) − len(in) = c
 		m := big.NewInt(-c)
 		p := big.NewInt(c)
 		return []ineq{ineqFromLin(diff, m, 1), ineqFromLin(diff, p, -1)}
